@@ -177,11 +177,18 @@ func init() { historySetups["C13"] = c13Setup }
 func TestC13(t *testing.T) {
 	st := kvh.StatsFor("C13")
 	st.SetRule(c13Rule,
-		"the shadow is driven by hook lines placed immediately before the real write/fsync/msync/truncate calls (hook fidelity is an assumption of this check)",
+		"the shadow is driven by hook lines placed immediately before the real write/fsync/msync/truncate calls; for standard I/O a sample of generated workloads is re-executed under strace and the system calls per file must match the hook events one to one (hook-fidelity pass); for MMap hook fidelity stays an assumption",
 		"Threshold counts record bytes (chunk headers included, block-tail padding and batch bytes excluded), as the statement words it",
 		"padding is derived from the file offset by the format rule (a tail of <= 7 bytes is padded)")
 	defer finishProperty(st)
 	defer func() { gIO.OnEvent = nil }()
+	t.Run("hook-fidelity", func(t *testing.T) {
+		n := 2
+		if kvh.GetEnv().Thorough() {
+			n = 14
+		}
+		c13Fidelity(t, st, n)
+	})
 	rapid.Check(t, func(t *rapid.T) {
 		runHistoryCase(t, "C13", c13Profile, func(r *kvh.Runner) bool {
 			return r.F.C13Rot > 0 || r.F.C13Thr > 0 || r.F.C13SyncBatch > 0
